@@ -436,50 +436,62 @@ theorem entryOk_of_subApi {view api : List Method} (h : SubApi view api) {s : Se
   obtain ⟨m, hm, hok⟩ := hs
   exact ⟨m, h _ _ hm, hok⟩
 
-/-- a view never accepts what the whole API rejects -/
+/-- a view's own methods never accept what the whole API rejects (why validating against the view alone, as the code
+did before cb5c413, was too strict but never too lax) -/
 theorem view_accepts_implies_api_accepts {view api : List Method} (h : SubApi view api) (ss : List Settings)
     (hv : validate view ss = []) : validate api ss = [] := by
   rw [accepted_iff] at hv ⊢
   exact ⟨hv.1, fun s hs => entryOk_of_subApi h (hv.2 s hs)⟩
 
-/-- generation goes through iff EVERY view that renders a service accepts the list -/
-theorem generate_nil_iff (views : List (List Method)) (ss : List Settings) :
-    generate views ss = [] ↔ ∀ v ∈ views, validate v ss = [] := by
+/-- as soon as one view renders a service, the outcome of the generation IS the validation against the whole API
+(every view validates against `dataclasses.replace(self, subpackage_view=())`, fix cb5c413) -/
+theorem generate_eq_validate (api : List Method) (views : List (List Method)) (ss : List Settings) (hne : views ≠ []) :
+    generate api views ss = validate api ss := by
   induction views with
-  | nil => simp [generate]
+  | nil => exact absurd rfl hne
   | cons v vs ih =>
-    simp only [generate, List.mem_cons, forall_eq_or_imp]
-    by_cases hv : validate v ss = []
-    · simp [hv, ih]
-    · have : (validate v ss).isEmpty = false := by simpa [List.isEmpty_iff] using hv
-      simp [this, hv]
+    simp only [generate]
+    cases hv : validate api ss with
+    | cons e es => simp
+    | nil =>
+      cases vs with
+      | nil => simp [generate]
+      | cons w ws => simpa [hv] using ih (by simp)
+
+/-- generation goes through iff no view renders a service (nothing reads the settings) or the whole API accepts the list -/
+theorem generate_nil_iff (api : List Method) (views : List (List Method)) (ss : List Settings) :
+    generate api views ss = [] ↔ views = [] ∨ validate api ss = [] := by
+  cases views with
+  | nil => simp [generate]
+  | cons v vs => simp [generate_eq_validate api (v :: vs) ss (by simp)]
 
 /-- an API without sub-packages: the one view is the API, generation = the validation (everything above applies) -/
-theorem generate_single_view (api : List Method) (ss : List Settings) : generate [api] ss = validate api ss := by
-  simp only [generate]
-  cases h : validate api ss <;> simp
+theorem generate_single_view (api : List Method) (ss : List Settings) : generate api [api] ss = validate api ss :=
+  generate_eq_validate api [api] ss (by simp)
 
 /-- **Generation fails unless the settings are valid, wherever the services live**: as soon as one view of the API
-renders a service (every view being a part of the API), a list that repeats a selector or holds an entry violating
-the statement's conditions aborts the generation. -/
+renders a service, a list that repeats a selector or holds an entry violating the statement's conditions aborts
+the generation. -/
 theorem generation_rejects_invalid (api : List Method) (views : List (List Method)) (ss : List Settings)
-    (hne : views ≠ []) (hsub : ∀ v ∈ views, SubApi v api) (hbad : validate api ss ≠ []) : generate views ss ≠ [] := by
-  intro h
-  rw [generate_nil_iff] at h
-  cases views with
-  | nil => exact hne rfl
-  | cons v vs =>
-    exact hbad (view_accepts_implies_api_accepts (hsub v (List.mem_cons_self ..)) ss (h v (List.mem_cons_self ..)))
+    (hne : views ≠ []) (hbad : validate api ss ≠ []) : generate api views ss ≠ [] := by
+  rw [generate_eq_validate api views ss hne]
+  exact hbad
 
 theorem generation_rejects_each_single_violation (api : List Method) (views : List (List Method)) (ss : List Settings)
-    (s : Settings) (hne : views ≠ []) (hsub : ∀ v ∈ views, SubApi v api) (hs : s ∈ ss) (hv : Violation api s) :
-    generate views ss ≠ [] :=
-  generation_rejects_invalid api views ss hne hsub (each_single_violation_rejected api ss s hs hv)
+    (s : Settings) (hne : views ≠ []) (hs : s ∈ ss) (hv : Violation api s) :
+    generate api views ss ≠ [] :=
+  generation_rejects_invalid api views ss hne (each_single_violation_rejected api ss s hs hv)
 
 theorem generation_rejects_duplicates (api : List Method) (views : List (List Method)) (ss : List Settings)
-    (hne : views ≠ []) (hsub : ∀ v ∈ views, SubApi v api) (h : ¬ (ss.map (·.selector)).Nodup) :
-    generate views ss ≠ [] :=
-  generation_rejects_invalid api views ss hne hsub (fun hv => h ((accepted_iff api ss).mp hv).1)
+    (hne : views ≠ []) (h : ¬ (ss.map (·.selector)).Nodup) :
+    generate api views ss ≠ [] :=
+  generation_rejects_invalid api views ss hne (fun hv => h ((accepted_iff api ss).mp hv).1)
+
+/-- **…and goes through when they are**, whichever views render services (the direction that failed before cb5c413:
+see `valid_settings_with_subpackage_view_accepted`) -/
+theorem generation_accepts_valid (api : List Method) (views : List (List Method)) (ss : List Settings)
+    (hnd : (ss.map (·.selector)).Nodup) (hok : ∀ s ∈ ss, EntryOk api s) : generate api views ss = [] :=
+  (generate_nil_iff api views ss).mpr (Or.inr ((accepted_iff api ss).mpr ⟨hnd, hok⟩))
 
 /-- the views the driver builds (`viewOf`: the API's methods whose selector the view lists) are parts of the API -/
 theorem viewOf_subApi (api : List Method) (sels : List String) : SubApi (viewOf api sels) api := by
@@ -509,23 +521,29 @@ theorem viewOf_subApi (api : List Method) (sels : List String) : SubApi (viewOf 
       · simp only [ha]
         exact ih h
 
-/-- the whole-API direction FAILS on the code: a list that is valid for the API is rejected when a view that does
-not hold the named service validates it ("Method was not found.") — services in sub-packages. -/
+/-- regression (repaired by cb5c413): a list that is valid for the API used to be rejected when a view that does not
+hold the named service validated it ("Method was not found.") — services in sub-packages; it is accepted now. -/
 def mAux : Method := ⟨"p.sub.T.Make", false, false, [fName, fId]⟩
 def subApi : List Method := [mCreate, mWatch, mAux]
 
-theorem valid_settings_rejected_by_subpackage_view_counterexample :
+theorem valid_settings_with_subpackage_view_accepted :
     validate subApi [⟨"p.S.Create", ["request_id"]⟩] = [] ∧
-    generate [viewOf subApi ["p.sub.T.Make"], subApi] [⟨"p.S.Create", ["request_id"]⟩] = [("p.S.Create", .methodNotFound)] := by
+    validate (viewOf subApi ["p.sub.T.Make"]) [⟨"p.S.Create", ["request_id"]⟩] = [("p.S.Create", .methodNotFound)] ∧
+    generate subApi [viewOf subApi ["p.sub.T.Make"], subApi] [⟨"p.S.Create", ["request_id"]⟩] = [] := by
   decide
 
 example : ([viewOf subApi ["p.sub.T.Make"], subApi] : List (List Method)) ≠ [] ∧
     validate subApi [⟨"p.sub.T.Make", ["name"]⟩] ≠ [] ∧
-    generate [viewOf subApi ["p.sub.T.Make"]] [⟨"p.sub.T.Make", ["name"]⟩] ≠ [] := by decide
+    generate subApi [viewOf subApi ["p.sub.T.Make"]] [⟨"p.sub.T.Make", ["name"]⟩] ≠ [] := by decide
 example : SubApi (viewOf subApi ["p.sub.T.Make"]) subApi := viewOf_subApi _ _
 example : ∃ s ∈ [(⟨"p.sub.T.Make", ["name"]⟩ : Settings)], Violation subApi s :=
   ⟨_, List.mem_singleton.mpr rfl, .required mAux "name" fName (by decide) (by decide) (by decide) (by decide)⟩
 example : ¬ (([⟨"p.sub.T.Make", []⟩, ⟨"p.sub.T.Make", []⟩] : List Settings).map (·.selector)).Nodup := by decide
+example : (([⟨"p.S.Create", ["request_id"]⟩] : List Settings).map (·.selector)).Nodup ∧
+    ∀ s ∈ ([⟨"p.S.Create", ["request_id"]⟩] : List Settings), EntryOk subApi s := by
+  refine ⟨by decide, fun s hs => ?_⟩
+  rw [List.mem_singleton.mp hs]
+  exact (classify_none_iff _ _).mp (by decide)
 
 /-! ## Call time: the population macro -/
 
